@@ -272,10 +272,10 @@ func runC19(tb report.TB, rep *report.Reporter, c c19Case) {
 				continue
 			}
 			time.Sleep(time.Duration(s.Delay) * time.Millisecond)
-			clean := holder.stop(s.Signal, 10*time.Second)
+			clean := holder.stop(s.Signal, 45*time.Second) // generous: a loaded machine must not turn a slow shutdown into an alarm
 			if s.Signal != "KILL" {
 				if !clean {
-					if fail(i, "holder-ignores-signal/"+s.Signal, "did not exit within 10s") {
+					if fail(i, "holder-ignores-signal/"+s.Signal, "did not exit within 45s") {
 						return
 					}
 				}
